@@ -149,7 +149,16 @@ func genBody(t *rapid.T, depth int) string {
 func deepText(t *rapid.T) string {
 	d := rapid.IntRange(20, 45).Draw(t, "depth")
 	var b strings.Builder
-	switch rapid.IntRange(0, 2).Draw(t, "deepkind") {
+	switch rapid.IntRange(0, 3).Draw(t, "deepkind") {
+	case 3:
+		// lists nested d deep, an element per level: every body starts inside <ul> and ends after </li>
+		for i := 0; i < d; i++ {
+			b.WriteString("<ul>{{range .L}}<li>")
+		}
+		b.WriteString("{{.}}")
+		for i := 0; i < d; i++ {
+			b.WriteString("</li>{{end}}</ul>")
+		}
 	case 0:
 		b.WriteString("<ul>")
 		for i := 0; i < d; i++ {
